@@ -246,6 +246,36 @@ def gen_dirc(rng, nops=50):
     ops += ["opendev 0 1", "mount 0 0 1", "usedirc 1", "list 0 0 1", "usedirc 0", "list 0 0 1", "free 0 0"] + epilogue()
     return ops
 
+def gen_dircfull(rng):
+    """exhaustion on a DIRCACHE volume: a directory with enough entries for several cache blocks, the volume filled to
+    the last block, the newest entries deleted one by one (cache blocks get emptied and released), space refilled"""
+    dostype = rng.choice([4, 5, 6, 7])
+    dbs = 512 if dostype & 1 else 488
+    ops = prologue(dostype, clock=(2012, 2, 3, 4, 5, 6))
+    if rng.random() < 0.5: ops.append("usedirc 1")
+    nlen = rng.choice([20, 26, 30])
+    names = []
+    for i in range(rng.randint(16, 40)):
+        nm = (b"s%02d_" % i + bytes(rng.choice(range(0x61, 0x7b)) for _ in range(nlen)))[:30]
+        names.append(nm)
+        ops += [f"open 1 0 0 {hx(nm)} 2", f"write 1 {rng.choice([0, 10, 700])} {i}", "close 1"]
+    ops += [f"open 2 0 0 {hx(b'filler')} 2", f"write 2 {1800 * dbs} 5", "close 2", "free 0 0"]
+    kill = names[-rng.randint(4, len(names) - 2):]
+    rng.shuffle(kill) if rng.random() < 0.3 else kill.reverse()
+    for nm in kill:
+        ops.append(f"remove 0 0 {hx(nm)}"); names.remove(nm)
+        if rng.random() < 0.2: ops.append("free 0 0")
+    ops += ["free 0 0", "list 0 0 0"]
+    for i in range(rng.randint(3, 12)):
+        nm = b"r%02d_" % i + b"x" * rng.choice([1, 12, 25])
+        ops += [f"open 1 0 0 {hx(nm)} 2", f"write 1 {rng.choice([0, 300, 3 * dbs])} {i + 60}", "close 1"]
+        names.append(nm)
+    ops += [f"remove 0 0 {hx(b'filler')}", "free 0 0", f"open 2 0 0 {hx(b'refill')} 2", f"write 2 {1800 * dbs} 6", "close 2", "free 0 0", "list 0 0 0"]
+    for nm in names[:3]: ops += [f"open 1 0 0 {hx(nm)} 1", "read 1 5000", "close 1"]
+    ops += epilogue()
+    ops += ["opendev 0 1", "mount 0 0 1", "usedirc 1", "list 0 0 1", "usedirc 0", "list 0 0 1", "free 0 0"] + epilogue()
+    return ops
+
 def gen_full(rng):
     """exhaustion profile: fill a DD floppy to within a few blocks, then hit every allocation site"""
     dostype = rng.randrange(6)
